@@ -16,7 +16,15 @@ CLAIMED = {
             "DESIGN.md §4 C02"),
     "C03": ("model_checking", "same histories; per transaction z3 proves total collateral over all accounts unchanged, only sender/engine/insurance fund/fee pool balances move, a liquidated trader receives nothing, failed transactions move nothing",
             "DESIGN.md §4 C03"),
-    "C08": ("model_checking", "same histories incl. naturally failing sub-messages (allowance/balance/limit/closed): after every transaction no tmp-swap / sent-funds / tmp-liquidator key remains; a failed transaction leaves raw storage of all contracts and all balances (semantically) identical",
+    "C04": ("model_checking", "closes after price moves by a symbolic counter-trade (healthy / zero-equity / bad-debt regimes at 10x), after funding with a symbolic oracle price, after a partial close, with and without fees: z3 proves payout == margin + (vAMM quote - open notional, signed) - funding (from the stored checkpoint AND from the harness's own ledger of the last charge) - quoted fees, the position is gone, negative equity is rejected, and for every trader-initiated operation the insurance fund's loss <= the rise in recorded prepaid bad debt",
+            "DESIGN.md §4 C04"),
+    "C05": ("model_checking", "margin, leverage (incl. non-integer multiples and the 1/initial boundary) and initial/maintenance ratios symbolic: after every successful open (fresh, increase, reduce, reverse, after funding) MarginRatio >= maintenance and equals the ratio recomputed by the harness from Position/OutputAmount/OutputTwap/cumulative premium; leverage outside [1, 1/initial] rejected; withdraw/deposit accounting and non-negative free collateral",
+            "DESIGN.md §4 C05"),
+    "C06": ("model_checking", "liquidations in three seeded regimes with maintenance ratio, liquidation fee, partial-liquidation ratio, oracle price (both sides of the 10% spread boundary) and counter-trade size symbolic: success only if the margin ratio as defined for liquidation (recomputed from primitives observed before the call) <= maintenance; exact payouts for full and partial liquidation, nothing to the trader, size reduced by exactly the fraction, never flipped or grown",
+            "DESIGN.md §4 C06"),
+    "C07": ("model_checking", "same liquidation histories: a failing Liquidate is proved to happen only when the position is NOT under-margined (or the fee is zero) for every value on the path; failures with the precondition satisfiable are counterexamples (one known finding: partial-liquidation margin underflow)",
+            "DESIGN.md §4 C07"),
+    "C08": ("model_checking", "same histories incl. naturally failing sub-messages (allowance/balance/limit/closed) plus FAULT INJECTION (the n-th call to the vAMM / cw20 / bank module / insurance fund / the engine's reply handler fails, one at a time, per template): an injected failure must fail the top-level call; after every transaction no tmp-swap / sent-funds / tmp-liquidator key remains; a failed transaction leaves raw storage of all contracts and all balances (semantically) identical",
             "DESIGN.md §4 C08"),
     "C09": ("model_checking", "every privileged ExecuteMsg variant of all five contracts (23) x every sender kind (owner, pauser, engine, insurance fund, vAMM, trader, stranger, + new/old holders after a role transfer), enumerated exhaustively on fresh deployments with the repository's own price feed; payload amounts/ratios symbolic over the full range; non-role senders must be rejected with raw storage of all contracts and all balances unchanged, role holders must not be rejected for authorisation",
             "DESIGN.md §4 C09"),
